@@ -136,6 +136,21 @@ func genC01(engine string) func(t *rapid.T) c01Case {
 			class = "depth32-start=2^32-1"
 		}
 		c := c01Case{Engine: engine, Class: class, History: h.Steps, W: w}
+		if engine == "e2" && rapid.IntRange(0, 9).Draw(t, "alias_attack") == 0 {
+			// Coupled attack: the batch is valid for the leaves (index + r) mod 2^depth, and the prover answers every
+			// index decomposition that is wide enough with the bits of index + r (256-bit packings are left alone,
+			// the reduced check guards those). Sound circuits decompose indices at <= 32 bits, where index + r does not fit.
+			shift := new(big.Int).Mod(ref.R, ref.Pow2(depth)).Uint64()
+			if valid := genValidInsertion(t, h, batch); valid != nil && valid.Start.Uint64() >= shift {
+				valid.Start = new(big.Int).SetUint64(valid.Start.Uint64() - shift)
+				c.W, c.Class = valid, "alias-attack:index+r"
+				c.Strat = &HintStrategy{NB: "plus_kr", K: 1, N: -256}
+				for i := 0; i < batch; i++ { // only the round indices are aliased; any other value (e.g. a range check on start+batch) is answered honestly
+					c.Strat.OnlyValues = append(c.Strat.OnlyValues, new(big.Int).Add(valid.Start, big.NewInt(int64(i))))
+				}
+				return c
+			}
+		}
 		if engine == "e2" {
 			vals := []*big.Int{w.Start}
 			for i := 0; i < batch; i++ {
